@@ -41,9 +41,40 @@ fn judge(cfg: u8, cache: bool, k: i64, other: bool, par: bool, o: &C10Outcome, o
     }
 }
 
+/// parallel insertion with a batch large enough to spawn tasks: nothing the failed call started may still be writing after it returned
+fn run_stray(cfg: u8, k: i64, rt: &tokio::runtime::Runtime, out: &mut Vec<Failure>) -> Option<bool> {
+    let r = if cfg == 0 {
+        rt.block_on(akd::vx_export::c10_stray_writes::<akd::WhatsAppV1Configuration>(k, false))
+    } else {
+        rt.block_on(akd::vx_export::c10_stray_writes::<akd::ExperimentalConfiguration<akd::ExampleLabel>>(k, false))
+    };
+    match r {
+        Ok((failed, before, after, same, verify)) => {
+            if failed && (before != after || !same || !verify) && out.len() < 6 {
+                out.push(Failure {
+                    clause: "replay/c10#no_task_outlives_a_failed_publish".into(),
+                    case: vec!["c10".into(), "stray".into(), cfg.to_string(), k.to_string()],
+                    input: format!("config {}, no cache, PARALLEL insertion: publish 24 labels, then publish all 24 updated with database operation #{k} of that call failing; let everything the call started run; then publish a different small batch",
+                                   if cfg == 0 { "WhatsAppV1" } else { "Experimental" }),
+                    expected: "the failed call leaves storage as it was; the later publish ends in the state of a directory that never saw the failed call and its lookups verify".into(),
+                    observed: format!("database records {before} -> {after} after the failed call; final state matches the reference: {same}; lookups verify: {verify}"),
+                    finding_id: None,
+                });
+            }
+            Some(failed)
+        }
+        Err(_) => None,
+    }
+}
+
 pub fn search(_seed: u64, _full: bool, rt: &tokio::runtime::Runtime) -> SearchResult {
     let mut out = vec![];
     let mut n = 0u64;
+    for cfg in 0..2u8 {
+        for k in 0..400i64 {
+            match run_stray(cfg, k, rt, &mut out) { Some(true) => n += 1, _ => break }
+        }
+    }
     for cfg in 0..2u8 {
         for cache in [false, true] {
             // the number of operations of the fault-free call bounds k
@@ -57,10 +88,15 @@ pub fn search(_seed: u64, _full: bool, rt: &tokio::runtime::Runtime) -> SearchRe
             }
         }
     }
-    SearchResult { evaluations: n, failures: out, summary: "BOUNDED: one two-epoch history, every single database-operation fault of the second publish, followed by the same or by a different batch, with/without cache, both configurations".into() }
+    SearchResult { evaluations: n, failures: out, summary: "BOUNDED: parallel insertion of 24-label batches with every single fault of the second publish (no task may outlive a failed publish); one two-epoch history, every single database-operation fault of the second publish, followed by the same or by a different batch, with/without cache, both configurations".into() }
 }
 
 pub fn replay(case: &[&str], rt: &tokio::runtime::Runtime) -> (bool, String) {
+    if case[0] == "stray" {
+        let mut out = vec![];
+        run_stray(case[1].parse().unwrap(), case[2].parse().unwrap(), rt, &mut out);
+        return match out.first() { Some(f) => (true, format!("{}: expected {}, observed {}", f.input, f.expected, f.observed)), None => (false, "holds".into()) };
+    }
     let (cfg, cache, k): (u8, bool, i64) = (case[0].parse().unwrap(), case[1] == "1", case[2].parse().unwrap());
     let other = case.get(3).map(|s| *s == "1").unwrap_or(false);
     let par = case.get(4).map(|s| *s == "1").unwrap_or(false);
